@@ -41,6 +41,11 @@ def qualifier(inv, case, rec):
         return 'travel-only' if case.get('travel_only') else 'service-or-waiting'
     if inv in ('PlacesAndWindows', 'ShiftEnd') and not case.get('metric', True):
         return 'non-metric-matrix'
+    if inv == 'TourServesJob':
+        # tours without a customer job: do all of them hold a break (and nothing else)?
+        idle = [t for t in rec.get('tours', []) if not any(a.get('jix', 0) > 0 for a in t['flat'])]
+        if idle and all(any(a['type'] == 'break' for a in t['flat']) and all(a['type'] in ('departure', 'arrival', 'break') for a in t['flat']) for t in idle):
+            return 'break-only-tour'
     return 'general'
 
 
